@@ -7,7 +7,8 @@ The steps are cut at the primitives the real thread performs on shared state
 (`frappy/modulebase.py:520-553`, `frappy/protocol/dispatcher.py:76-96`):
 
   acquire      `with self.updateLock:`                                (blocks while another thread owns it)
-  begin        `timestamp = timestamp or time.time()` + conversion    (reads the clock)
+  begin        `if not timestamp or not math.isfinite(timestamp): timestamp = time.time()` + conversion
+               (reads the clock only when the argument is missing, zero or not finite)
   compare      `changed = pobj.value != value or pobj.readerror`  /  `secop_error(err) == pobj.readerror`
   store        `pobj.value = value`
   check        `timestamp < (pobj.timestamp or 0) + pobj.omit_unchanged_within`
@@ -42,13 +43,13 @@ abbrev Cid := Nat
 inductive Op (V E : Type) where
   | accAcquire
   | accRelease
-  | announce (p : Pid) (ev : Ev V E)
+  | announce (p : Pid) (ev : Ev V E) (ts : TsArg)
   deriving Repr
 
 /-- where a thread is inside `announceUpdate` -/
 inductive PC (V E : Type) where
   | idle
-  | locked (p : Pid) (ev : Ev V E)
+  | locked (p : Pid) (ev : Ev V E) (ts : TsArg)
   | timed (p : Pid) (now : Int) (r : VE V E)
   | compared (p : Pid) (now : Int) (v : V) (chg : Bool)
   | stored (p : Pid) (now : Int) (v : V) (chg : Bool)
@@ -114,14 +115,16 @@ def stepIdle {V E : Type} (s : Sys V E) (t : Tid) : Option (Sys V E) :=
     if s.alock = none then some { s with alock := some t, thr := upd s.thr t ⟨rest, .idle⟩ } else none
   | .accRelease :: rest =>
     if s.alock = some t then some { s with alock := none, thr := upd s.thr t ⟨rest, .idle⟩ } else none
-  | .announce p ev :: rest =>
-    if s.lock = none then some { s with lock := some t, thr := upd s.thr t ⟨rest, .locked p ev⟩ } else none
+  | .announce p ev ts :: rest =>
+    if s.lock = none then some { s with lock := some t, thr := upd s.thr t ⟨rest, .locked p ev ts⟩ } else none
 
 /-- one step of thread `t`; `none` = the thread is blocked or has finished -/
 def step {V E : Type} [DecidableEq E] (c : Cfg V E) (s : Sys V E) (t : Tid) : Option (Sys V E) :=
   match (s.thr t).pc with
   | .idle => stepIdle s t
-  | .locked p ev => some ({ s with clock := s.clock + c.tick }.setPc t (.timed p s.clock (resolve c.o ev)))
+  | .locked p ev ts =>
+    some ({ s with clock := if readsClock ts then s.clock + c.tick else s.clock }.setPc t
+      (.timed p (effTimestamp ts s.clock) (resolve c.o ev)))
   | .timed p now (.val v) => some (s.setPc t (.compared p now v (changed c.o (s.entries p) v)))
   | .timed p now (.err x) =>
     some (s.setPc t (if (s.entries p).readerror = some x then .leaving p now (.err x) else .go p now (.err x)))
@@ -170,7 +173,7 @@ def nextLabel {V E : Type} (s : Sys V E) (t : Tid) : Option Label :=
   | .idle => match (s.thr t).prog with
     | .accAcquire :: _ => some .acqA
     | .accRelease :: _ => some .relA
-    | .announce _ _ :: _ => some .acqU
+    | .announce _ _ _ :: _ => some .acqU
     | [] => none
   | .built _ _ _ _ => some .acqS
   | .sending _ _ _ _ (k :: _) => some (.send k)
